@@ -16,10 +16,22 @@ table), the NetQASM send wrappers (full receiver, unknown node / number),
 register limits.  Of that stage's oracles this check owns `xatomic` (an op
 that returns an error leaves object graph, generator matrices and queues
 unchanged, locks free) and `xrefuse` (refusal and error class predicted from
-plain counters); the rest are notes (C02 owns them)."""
+plain counters); the rest are notes (C02 owns them).
+
+Stage "refusals under contention" (harness/vnet_contend.py): every refusal
+cause x placement once more while a third party (a separate PB client that
+called the node's real `get_global_lock`) holds the global lock of each node
+the refused op touches -- issuer / target / simulator, one at a time, all
+together, a bystander --, and at random points of random histories: the held
+locks stay held and are never released while the op is pending, nothing
+changes; after the third party releases, the op completes with the documented
+class, all locks are free, the state equals the pre-state and follow-up ops on
+every involved node succeed (kinds atomic / typing / followup, keys
+`contended:*` / `after-contended-refusal:*`)."""
 from .. import core
 from .. import vnetcase
 from .. import vnetx_cases
+from .. import vnet_contend
 
 LEAN_TARGETS = ["SqVerif.Props.C05"]
 PROPS_FILE = "SqVerif/Props/C05.lean"
@@ -44,12 +56,16 @@ ASSUMPTIONS = [
 
 def run(ctx):
     rp = getattr(ctx, "replay", None)
+    if rp and vnet_contend.is_contend(rp):
+        core.scratch_repo()
+        return vnet_contend.stage(ctx, core.Result())
     if rp and vnetx_cases.is_x(rp):
         core.scratch_repo()
         return vnetx_cases.stage(ctx, core.Result(), prop="C05")
     res = vnetcase.run_check(ctx, "C05")
     if not rp:
         vnetx_cases.stage(ctx, res, prop="C05", n_gen=ctx.scale(40, 2000))
+        vnet_contend.stage(ctx, res)
     return res
 
 
